@@ -247,18 +247,22 @@ def data_is(ctx: Ctx) -> List[Ob]:
 def sort_guard(ctx: Ctx) -> List[Ob]:
     """sort_children returns early only when there is nothing to do at this node *and below*: a node with a single child still recurses when deep is set"""
     obs: List[Ob] = []
+    from .util import path_conds
+
     f = ctx.model.func("Node.sort_children")
-    e = one("$cl = self._children", f.node)
-    cl = e[1]["$cl"] if e else "self._children"
-    guards = [n for n in f.body if isinstance(n, ast.If) and n.body and isinstance(n.body[-1], ast.Return)]
-    ok = bool(guards)
-    for g in guards:
-        accepted = [f"not {cl} or len({cl}) == 1 and (not deep)", f"not {cl}", f"{cl} is None", f"not {cl} or (len({cl}) == 1 and (not deep))",
-                    f"not {cl} or len({cl}) < 2 and (not deep)", f"len({cl}) == 0"]
-        if not any(match(a, g.test) is not None for a in accepted):
-            ok = False
+    recs = [c for c in ctx.env.calls_in[f] if isinstance(c.func, ast.Attribute) and c.func.attr == "sort_children"]
+    if not recs:
+        raise AnalysisError("Node.sort_children: recursive call not found")
+    bad = None
+    for c in recs:
+        for e, pol in path_conds(ctx, f, c):
+            t = norm(e)
+            # the recursion must not depend on the number of children (other than through `deep`)
+            if "len(" in t and "deep" not in t and not (pol and t.startswith("len(") and t.endswith("> 0")):
+                bad = ("" if pol else "not ") + t
+    ok = bad is None
     obs.append(ctx.ob("SORT-GUARD", ["C04"], f, "the early return of sort_children keeps descending below an only child when deep is set", None, ok,
-                      "" if ok else f"`{norm(guards[0].test) if guards else '?'}`: a deep sort stops at every node that has exactly one child"))
+                      "" if ok else f"`{bad}`: a deep sort stops at every node that has exactly one child"))
     return obs
 
 
